@@ -89,6 +89,7 @@ func statesDuring(evs []stateEvent, init state, wt, ti, oi, inv, ret int) []stat
 
 // expectation is one acceptable answer of a detection.
 type expectation struct {
+	bare    bool // compare the value's own string without parameters
 	key     string
 	wantErr bool
 	corner  bool // both the error answer and the plain answer are acceptable
@@ -96,9 +97,10 @@ type expectation struct {
 }
 
 func expectDetect(op *Op, x []byte, st state) expectation {
-	ok := model.Walk(x, st.limit, st.exts).Key()
+	w := model.Walk(x, st.limit, st.exts)
+	ok, bare := w.Key(), w.BareLeaf
 	if op.Kind == "detect" {
-		return expectation{key: ok}
+		return expectation{key: ok, bare: bare}
 	}
 	switch op.FileKind {
 	case "enoent", "eacces", "dir", "real-missing", "real-dir":
@@ -122,7 +124,10 @@ func expectDetect(op *Op, x []byte, st state) expectation {
 		// opened itself is not stated, so the failure may or may not surface
 		corner = true
 	}
-	return expectation{key: ok, corner: corner, okKey: ok}
+	if corner && op.Kind == "reader" {
+		corner = false // all header bytes arrived: Detect's answer (strict for readers, see C05)
+	}
+	return expectation{key: ok, corner: corner, okKey: ok, bare: bare}
 }
 
 func (e expectation) String() string {
@@ -137,6 +142,9 @@ func (e expectation) String() string {
 
 func (e expectation) matches(op *Op, res *OpRes) bool {
 	got := res.R.Key()
+	if e.bare {
+		got = res.R.BareKey()
+	}
 	isErr := !res.ErrNil && got == octet && op.Kind != "detect"
 	if e.wantErr {
 		return isErr
